@@ -215,6 +215,10 @@ func selCase(o *hc.Out, text, origin string) {
 		o.Count("sel.outside_fragment:" + origin)
 		return
 	}
+	if quotedCallName(ws) {
+		o.Count("sel.outside_fragment:quoted_function_name")
+		return
+	}
 	o.Case("c18.sel "+strings.Join(ws, " "), impl)
 	if impl != "ERR" && impl != "PANIC" {
 		printedLiteralLaw(o, text, ws, strings.Fields(impl))
@@ -248,6 +252,10 @@ func qryCase(o *hc.Out, text string) {
 	impl := selImpl(text, names)
 	if impl == "OUTSIDE" {
 		o.Count("qry.outside_fragment")
+		return
+	}
+	if quotedCallName(ws) {
+		o.Count("qry.outside_fragment:quoted_function_name")
 		return
 	}
 	o.Case("c18.qry "+strings.Join(ws, " "), impl)
